@@ -168,7 +168,7 @@ func init() {
 		Explanation: "DECIDED (structural, all interleavings): shutdown-order (close(ticks) → wg.Wait → close(results) → Stop on the single path of the closure deferred by the loop, registered before any exit); close-sites (results/ticks closed exactly once, stopch only inside sync.Once.Do); send-sites (the only send on a *Result channel is in the worker; every `go worker` is preceded by wg.Add(1) on the same WaitGroup with the same channels; the worker defers wg.Done first); one-result-per-tick (after a tick is received the worker cannot loop or exit without exactly one hit call and one send of its result); seq-lockset (every access to attack.seq is in hit under atk.seqmu, one load copied to Result.Seq and one store of load+1); stop-in-select (every send on ticks is a select case alongside a receive on stopch whose case returns); targeter-error→Stop; stop-initiator (Stop returns false or a flag set inside the Once closure that also closes stopch); goroutine-termination idioms for every go statement in lib; CLI pump (every received result is encoded and observed before the next receive; closed channel ends the pump; second signal exits). " +
 			"NOT DECIDED: concrete interleavings are not enumerated; 'no goroutine left behind' is reduced to termination idioms under the assumptions that the consumer drains results and that hit returns (HTTP client timeout).",
 		Assumptions: []string{"sync.Mutex/WaitGroup/Once and channel semantics of the Go memory model", "the consumer drains the results channel", "http.Client.Do returns (timeout)"},
-		MinObs:      16,
+		MinObs:      18,
 		Run:         runC02,
 	})
 	register(&propSpec{
@@ -177,7 +177,7 @@ func init() {
 		Explanation: "DECIDED (structural, all schedules): spawn-cap (initial workers are spawned in a counting loop bounded by a cell clamped to min(a.workers,a.maxWorkers); on-demand spawns are dominated by workers < a.maxWorkers on the same counter cell with exactly one increment per spawn and no other write; no other function starts a worker); one-hit-per-worker (C02 one-result-per-tick) ⇒ started-and-unconsumed ≤ maxWorkers; grow-on-demand shape (spawn only in the default arm of a non-blocking select that offered the tick and watched stopch, followed by the blocking select with the same arms); option/flag plumbing (-workers/-max-workers → Workers/MaxWorkers → Attacker.workers/maxWorkers). " +
 			"NOT DECIDED: 'starts as soon as one result has been consumed' is scheduler latency; maxWorkers==0 is outside the property's domain.",
 		Assumptions: []string{"channel/select semantics", "C02 obligations hold (checked again here where used)"},
-		MinObs:      8,
+		MinObs:      6,
 		Run:         runC03,
 	})
 	register(&propSpec{
@@ -186,7 +186,7 @@ func init() {
 		Explanation: "DECIDED (SSA path rules on the one attack loop): exactly one Pacer.Pace call per iteration whose elapsed argument is time.Since(atk.began) evaluated in the same iteration (atk.began written once from time.Now() in the composite literal) and whose hits argument is the loop counter; counter φ is 0 on entry and +1 exactly on the 'sent' outcome of a send on ticks, and every back edge comes from such an outcome; every send on ticks is dominated by time.Sleep(wait) of this iteration's Pace; the duration test `du > 0 && elapsed > du` on the same elapsed value dominates Pace and its true edge returns; the stop result's true edge returns with no send reachable. " +
 			"NOT DECIDED: wall-clock facts (time.Sleep sleeps at least wait; time.Since is monotone) are the trusted base.",
 		Assumptions: []string{"time.Sleep(d) blocks for at least d", "time.Since on a time with monotonic reading is non-decreasing"},
-		MinObs:      8,
+		MinObs:      6,
 		Run:         runC04,
 	})
 	register(&propSpec{
@@ -195,7 +195,7 @@ func init() {
 		Explanation: "DECIDED (lockset + dominance, all schedules): the clock read that reaches Result.Timestamp, the load of attack.seq that reaches Result.Seq and the store seq+1 all execute while atk.seqmu is held in ONE critical section (no unlock between them); the timestamp is began.Add(time.Since(began)) on the write-once attack.began (monotonic base, not a fresh wall-clock read); the closure storing Result.Latency = time.Since(Result.Timestamp) is deferred in a block dominating every return after the critical section and is the only store to Latency; Timestamp is stored only inside the critical section, which dominates client.Do; Result.End is Timestamp.Add(Latency). " +
 			"NOT DECIDED: nothing behavioural beyond the trusted base (mutex semantics, monotonic clock).",
 		Assumptions: []string{"sync.Mutex provides mutual exclusion and happens-before", "time.Since uses the monotonic clock"},
-		MinObs:      7,
+		MinObs:      6,
 		Run:         runC05,
 	})
 }
@@ -959,6 +959,26 @@ func errNotNilIf(call *ssa.Call, after ssa.Instruction) *ssa.If {
 		}
 	}
 	return nil
+}
+
+// errEdges returns the blocks entered when the error produced by call is
+// non-nil / nil, whichever way the test is written (`err != nil` or `err == nil`).
+func errEdges(call *ssa.Call) (onErr, onOK *ssa.BasicBlock, ifi *ssa.If) {
+	if i := errNotNilIf(call, call); i != nil {
+		return i.Block().Succs[0], i.Block().Succs[1], i
+	}
+	for _, ev := range errValuesOf(call) {
+		for _, r := range refs(ev) {
+			if bo, ok := r.(*ssa.BinOp); ok && bo.Op == token.EQL {
+				if k, ok := bo.Y.(*ssa.Const); ok && k.Value == nil {
+					if i := trueImpliesIf(bo); i != nil {
+						return i.Block().Succs[1], i.Block().Succs[0], i
+					}
+				}
+			}
+		}
+	}
+	return nil, nil, nil
 }
 
 func c02StopInitiator(c *Ctx, a *attackAnchors) {
